@@ -589,23 +589,40 @@ def check_c07(spec, P, tl_obj, backend, today):
         if abs(mid[0] - E[0]) > 1 + 1e-9 or abs(mid[1] - E[1]) > 1 + 1e-9:
             raise Violation("link-end-not-at-box", "link %d ends at %r, the axis-facing edge of box %d has its middle at %r" % (i, E, i, mid))
         got.append((a(S), (lb["w"], lb["h"]), lb["text"], K))
-    used = [False] * n
-    for (pos, opt, txt) in sorted(exp, key=lambda e: e[0]):
-        for j, g in enumerate(got):
-            if used[j]:
+    # multiset comparison as a bipartite matching (tolerance windows of near-coincident data overlap, so a greedy
+    # assignment can fail where a perfect matching exists)
+    def compatible(e, g):
+        pos, opt, txt = e
+        if abs(g[0] - pos) > ptol * max(1, abs(pos)) or g[1] not in opt:
+            return False
+        if backend == "svg":
+            return (g[2] or None) == txt
+        return (g[2] is None and txt is None) or (g[2] is not None and txt is not None and texrel.allowed(txt, g[2]))
+
+    adj = [[j for j, g in enumerate(got) if compatible(e, g)] for e in exp]
+    match_of_got = [-1] * n
+
+    def augment(i, seen):
+        for j in adj[i]:
+            if j in seen:
                 continue
-            if abs(g[0] - pos) > ptol * max(1, abs(pos)) or g[1] not in opt:
-                continue
-            if backend == "svg":
-                ok = (g[2] or None) == txt
-            else:
-                ok = (g[2] is None and txt is None) or (g[2] is not None and txt is not None and texrel.allowed(txt, g[2]))
-            if ok:
-                used[j] = True
-                break
-        else:
-            near = sorted(got, key=lambda g: abs(g[0] - pos))[:2]
-            raise Violation("datum-not-drawn", "no dot/box for datum at axis position %r with size in %r and text %r; nearest drawn: %r" % (pos, opt, txt, near))
+            seen.add(j)
+            if match_of_got[j] < 0 or augment(match_of_got[j], seen):
+                match_of_got[j] = i
+                return True
+        return False
+
+    import sys as _sys
+    _old = _sys.getrecursionlimit()
+    _sys.setrecursionlimit(max(_old, 4 * n + 1000))
+    try:
+        for i in sorted(range(n), key=lambda i: len(adj[i])):
+            if not augment(i, set()):
+                pos, opt, txt = exp[i]
+                near = sorted(got, key=lambda g: abs(g[0] - pos))[:2]
+                raise Violation("datum-not-drawn", "no dot/box for datum at axis position %r with size in %r and text %r; nearest drawn: %r" % (pos, opt, txt, near))
+    finally:
+        _sys.setrecursionlimit(_old)
     for p, r, col in P["dots"]:
         if not (-1e-6 * L - 1e-9 <= a(p) <= L * (1 + 1e-6) + 1e-9):
             raise Violation("dot-off-axis-line", "dot at %r, axis runs 0..%r" % (p, L))
